@@ -275,7 +275,8 @@ def explore_subtree(make, region, bound, root_prefix, check, stats, horizon=2000
         except Stuck as e:
             check(("stuck", repr(e.args[0])[:300]), ex, ctx, prefix)
             stats["executions"] += 1
-            continue
+            stats["capped"] = True      # every further schedule of this subtree would cost the step timeout again
+            break
         stats["executions"] += 1
         stats["points"] += len(ex.choices)
         stats["switches"] += ex.switches
